@@ -59,6 +59,7 @@ def specState (s : Seq.Seq) (rel : List Nat) : String :=
 
 inductive POp where
   | op (o : Op)
+  | sortd      -- sort with the comparator answering in descending order (same run, another environment)
   | free
   deriving Repr
 
@@ -73,9 +74,13 @@ def parseOp (j : Bool) (w : List String) : Option POp :=
   | ["get", i] => do pure (.op (.get (← i.toNat?)))
   | ["len"] => some (.op .len)
   | ["sort"] => some (.op .sort)
+  | ["sortd"] => some .sortd
   | ["bs", k] => do pure (.op (.bsearch (elemOf (← k.toNat?))))
   | ["free"] => some .free
   | _ => none
+
+/-- the comparator of `sortd`: the reverse of `leId` -/
+def geId (a b : Elem) : Bool := Seq.leId b a
 
 def isSorted : Seq.Seq → Bool
   | [] => true
@@ -168,17 +173,9 @@ def pickAlt (ans : SpecAns) (res : String) : Option (Seq.Seq) :=
   | some p => some p.2.1
   | none => none
 
-def stepOp (j : Bool) (limit : Nat) (a : Al) (s : Seq.Seq) (p : POp) : Option (Option Al × Seq.Seq) × Out :=
-  match p with
-  | .free =>
-    match Arraylist.free a with
-    | .fault why => (none, { model := "FAULT " ++ why, spec := "no-fault" })
-    | .ok rel =>
-      let m := "freed rel:" ++ idsStr (if j then sortNat rel else rel) ++ " ## -"
-      let sp := "freed rel:" ++ idsStr (if j then sortNat (Seq.freeReleased s) else Seq.freeReleased s)
-      (some (none, []), { model := m, spec := sp, cov := ["free"] ++ (if rel.isEmpty then [] else ["released"]) })
-  | .op op =>
-    match Arraylist.step (envOf limit) a op with
+def stepWith (j : Bool) (env : Env) (specOf : Seq.Seq → SpecAns) (a : Al) (s : Seq.Seq) (op : Op) :
+    Option (Option Al × Seq.Seq) × Out :=
+    match Arraylist.step env a op with
     | .fault why => (none, { model := "FAULT " ++ why, spec := "no-fault" })
     | .ok r =>
       let rel := if j then sortNat r.released else r.released
@@ -190,11 +187,24 @@ def stepOp (j : Bool) (limit : Nat) (a : Al) (s : Seq.Seq) (p : POp) : Option (O
           | .bsearch _ => if j then "" else (match r.pos with | some i => s!" pos={i}" | none => " pos=-")
           | _ => ""
         let m := s!"{res} {st} ## {r.al.size}{pos}"
-        let ans := specStep j s op
+        let ans := specOf s
         let s' := match pickAlt ans res with | some s' => s' | none => s
         let oom := if (ans.alts.find? (fun p => p.1 = res)).isNone ∧ (ans.oomAlts.find? (fun p => p.1 = res)).isSome
                    then ["allocator-refused"] else []
         (some (some r.al, s'), { model := m, spec := renderAlts j ans, cov := covOf a s op r ++ oom })
+
+
+def stepOp (j : Bool) (limit : Nat) (a : Al) (s : Seq.Seq) (p : POp) : Option (Option Al × Seq.Seq) × Out :=
+  match p with
+  | .free =>
+    match Arraylist.free a with
+    | .fault why => (none, { model := "FAULT " ++ why, spec := "no-fault" })
+    | .ok rel =>
+      let m := "freed rel:" ++ idsStr (if j then sortNat rel else rel) ++ " ## -"
+      let sp := "freed rel:" ++ idsStr (if j then sortNat (Seq.freeReleased s) else Seq.freeReleased s)
+      (some (none, []), { model := m, spec := sp, cov := ["free"] ++ (if rel.isEmpty then [] else ["released"]) })
+  | .sortd => stepWith j { envOf limit with qs := Seq.sort geId } (fun s => { alts := [("r=0", Seq.sort geId s, [])] }) a s .sort
+  | .op op => stepWith j (envOf limit) (fun s => specStep j s op) a s op
 
 def doNew (limit : Nat) (capStr : String) : Option (Option Al) × Out :=
   match parseInt? capStr with
